@@ -364,6 +364,7 @@ func c07Replay(raw json.RawMessage) *mc.Violation {
 	}
 	ws := pipe.NewWorkspace("c07r")
 	defer ws.Close()
+	pairsShort = false // the two-instance pass on whatever specification is replayed
 	var st mc.Stats
 	vs := c07One(ws, lc.Family, lc.Index, lc.Spec, 3, lc.L, &st)
 	if len(vs) == 0 {
